@@ -6,6 +6,7 @@ import (
 	"fmt"
 	"go/token"
 	"go/types"
+	"regexp"
 	"strings"
 
 	"golang.org/x/tools/go/ssa"
@@ -491,6 +492,49 @@ func (c *Ctx) classifyMapRange(mr mapRange) (string, string) {
 		}
 		for _, in := range b.Instrs {
 			scan(in, false, 0)
+		}
+	}
+	// a return taken from inside the body leaves the loop (its block does not lead back to the header, so it is not
+	// part of the body above): what it hands back must not depend on which element the iteration happened to be at —
+	// `return true` for "some element qualifies" is the same whatever the order, `return elem` or an error that names
+	// the element is not when several qualify
+	for _, b := range mr.fn.Blocks {
+		if mr.body == nil || !mr.body.Dominates(b) || mr.inBody(b) || len(b.Instrs) == 0 {
+			continue
+		}
+		rt, isR := b.Instrs[len(b.Instrs)-1].(*ssa.Return)
+		if !isR {
+			continue
+		}
+		// only exits from inside the body: some predecessor chain leads here from a body block without passing the
+		// header's normal exit
+		fromBody := false
+		for _, p := range b.Preds {
+			if mr.inBody(p) || mr.body.Dominates(p) && p != mr.header {
+				fromBody = true
+			}
+		}
+		if !fromBody {
+			continue
+		}
+		depends := false
+		for _, res := range rt.Results {
+			res = resolveSpill(res, rt)
+			operandClosureDeep(res, func(x ssa.Value) {
+				if ex, isE := x.(*ssa.Extract); isE && ex.Tuple == ssa.Value(mr.next) && ex.Index != 0 {
+					depends = true
+				}
+				if phi, isP := x.(*ssa.Phi); isP && phi.Block() == mr.header {
+					depends = true
+				}
+			})
+		}
+		if depends {
+			if why, okj := jget("mapRangeReturnJustified", mapRangeReturnJustified, regName.ReplaceAllString(mr.desc, "t")); okj {
+				notes = append(notes, "early return: "+why)
+			} else {
+				problems = append(problems, "a return from inside the loop hands back a value computed from the element the iteration is at (or from what earlier elements left behind): with several qualifying elements the answer depends on the order @ "+c.InstrPos(rt))
+			}
 		}
 	}
 	// appends: error slices are sorted at the boundary; others must reach a sort
@@ -1313,3 +1357,12 @@ func (c *Ctx) constAtSites(v ssa.Value) ssa.Value {
 	}
 	return k
 }
+
+// mapRangeReturnJustified: map ranges that return an element-dependent value from inside the body, with the reason
+// the answer does not depend on the order (uniqueness of the qualifying element, established elsewhere).
+var mapRangeReturnJustified = map[string]string{
+	"yang.build | range t.sRequired": "the table has one key per flavour of a statement type, and the only type with two flavours is module/submodule (the aliases table has that one pair): after the statement's own keyword is skipped at most one key is left, so there is no order to depend on; the inner loop runs over a slice in declaration order",
+}
+
+// regName: an SSA register name inside a construct description (renumbered by any edit above it).
+var regName = regexp.MustCompile(`\bt[0-9]+\b`)
